@@ -1,4 +1,4 @@
-import Proofs.DirectionHist
+import Proofs.DirectionPrior
 
 /-!
 # C05 — Searches maximise the objective(s)
@@ -613,6 +613,67 @@ theorem C05_bounds_penalty_monotone (ub r r' : Vec) (h : Forall₂ (· ≤ ·) r
     Forall₂ (· ≤ ·) (penalise ub r) (penalise ub r') :=
   penalise_mono ub h
 
+/-! ## one-shot batches (`topk`, `boltzmann`) and the sampling prior of `update_prior=True`
+
+`Optimizer._tell` caches the candidates `xs` that reached the acquisition (after `_filter_duplicated`) together with the
+acquisition values computed on them; `ask(n, "topk")` returns `[xs[i] for i in np.argsort(values)[:n]]` and
+`ask(n, "boltzmann")` starts with `xs[np.argmax(-values)]`.  What `np.argsort` does with equal values is an environment
+choice under the contract `ArgsortOK`.  The harness sends the positions behind every real batch to `isNSmallestB`, once
+with the observed acquisition values (L2) and once with the negated scores (L3). -/
+
+/-- **C05 (verified checker for batches).** -/
+theorem C05_nsmallest_checker (values : Vec) (idx : List Nat) (n : Nat) :
+    isNSmallestB values idx n = true ↔ IsNSmallest values idx n := isNSmallestB_iff values idx n
+
+/-- **C05 (one-shot batch `topk`).**  With every candidate observed, an interpolating surrogate, an exploitation-only
+acquisition and fitted targets strictly decreasing in a score: for every admissible `np.argsort`, the positions selected
+by `topk` are `n` positions of smallest acquisition value, THE CANDIDATES AT THOSE POSITIONS OF THE SAME LIST `xs` are
+`n` candidates of largest score (all of them when fewer than `n` reached the acquisition), and indexing `xs` cannot fail. -/
+theorem C05_topk_batch (score T values sc : Vec) (xs order : List Nat) (n : Nat) (hanti : StrictAnti score T)
+    (hint : interpolate T xs = some values) (hsc : interpolate score xs = some sc)
+    (hord : ArgsortOK values order) :
+    IsNSmallest values (topkIdx order n) n ∧
+    IsNSmallest (sc.map (fun s => -s)) (topkIdx order n) n ∧
+    (batchOf xs (topkIdx order n)).isSome = true := by
+  have h := topkIdx_isNSmallest hord n
+  refine ⟨h, nsmallest_by_score score T xs values sc _ n hanti hint hsc h, ?_⟩
+  apply batchOf_isSome
+  intro i hi
+  have := h.2.2.1 i hi
+  rwa [mapOpt_length hint] at this
+
+/-- **C05 (first member of a `boltzmann` batch).**  `np.argmax(-values)` is the arg-min of the acquisition: under the
+same contract the first configuration of the batch is a candidate of largest score. -/
+theorem C05_boltzmann_first (score T values : Vec) (xs : List Nat) (k : Nat)
+    (hlen : score.length = T.length) (hanti : StrictAnti score T)
+    (hint : interpolate T xs = some values) (hk : boltzmannFirst values = some k) :
+    IsNSmallest values [k] 1 ∧ ChosenIsBest score xs k := by
+  refine ⟨boltzmannFirst_isNSmallest hk, ?_⟩
+  rw [boltzmannFirst_eq] at hk
+  exact chosen_max_of_anti score T xs values hanti hlen hint k hk
+
+/-- **C05 (verified checker for the prior update).**  `checkPriorSel` decides: the selection is not empty and every
+observation left out has a strictly larger fitted target (a strictly smaller objective) than every selected one. -/
+theorem C05_prior_checker (y : Vec) (sel : List Bool) : checkPriorSel y sel = true ↔ PriorSelSpec y sel :=
+  checkPriorSel_iff y sel
+
+/-- **C05 (`update_prior`: the model's selection points the right way).**  For every history of fitted targets and every
+quantile for which `np.quantile` is defined, `y <= np.quantile(y, q)` satisfies that specification. -/
+theorem C05_prior_model_direction (q : Rat) (y : Vec) (m : List Bool) (h : priorMask q y = some m) :
+    checkPriorSel y m = true := (checkPriorSel_iff y m).mpr (priorMask_spec h)
+
+/-- **C05 (`update_prior=True`: which observations the sampling prior is re-fitted on).**  `CBO(update_prior_quantile = p)`
+hands `q = 1 - p` to the optimizer, which re-fits the prior of every real hyperparameter on the told points whose fitted
+target is `<= np.quantile(targets, q)`.  With fitted targets strictly decreasing in pairwise distinct scores
+(`C05_single`, `C05_moo_aligned` give that) the selected observations are (a) upward closed in the score, (b) contain the
+observation of largest score, (c) exactly `⌊(n-1)(1-p)⌋ + 1` many: the selection is the top fraction BY OBJECTIVE. -/
+theorem C05_prior_selection (score T : Vec) (p : Rat) (m : List Bool) (hlen : score.length = T.length)
+    (hanti : StrictAnti score T) (hnd : score.Nodup) (hm : priorMask (cboPriorQuantile p) T = some m) :
+    (∀ (i j : Nat) (a b : Rat), score[i]? = some a → score[j]? = some b → a < b → m[i]? = some true → m[j]? = some true) ∧
+    (∀ (i : Nat) (a : Rat), score[i]? = some a → (∀ b ∈ score, b ≤ a) → m[i]? = some true) ∧
+    m.count true = (((T.length : Rat) - 1) * (1 - p)).floor.toNat + 1 :=
+  priorMask_by_score score T (cboPriorQuantile p) m hlen hanti hnd hm
+
 /-! ## non-vacuity and regression witnesses
 
 History of four candidates with scores `0,1,2,3`, two objectives `score + 100` and
@@ -696,5 +757,61 @@ example : checkChoice [5, 7, 6] [true, false, true] [0, 1, 2, 1] 2 = true ∧
 example : penalise [0, 0] [-1, 2] = [3, 6] := by decide +kernel
 example : mooTargets .minmax (.pbi 5) [1/2, 1/2] (exTold.map (smul 3))
     = mooTargets .minmax (.pbi 5) [1/2, 1/2] exTold := by decide +kernel
+
+/-! one-shot batches: scores `[5, 7, 6, 1]`, candidate 3 was asked before and is filtered out, the candidates that reached
+the acquisition are `xs = [2, 0, 1]`; `topk` with `n = 2` returns the candidates of score 7 and 6.  Indexing the UNFILTERED
+sample with the same positions (what a cache bound before `_filter_duplicated` does) returns the worst candidate. -/
+example : interpolate [-5, -7, -6, -1] [2, 0, 1] = some [-6, -5, -7] ∧ interpolate [5, 7, 6, 1] [2, 0, 1] = some [6, 5, 7] := by
+  decide +kernel
+example : StrictAnti [5, 7, 6, 1] [-5, -7, -6, -1] := by
+  intro i j a b ta tb hi hj hti htj hab
+  have hi' : i < 4 := by
+    rcases Nat.lt_or_ge i 4 with h | h
+    · exact h
+    · rw [List.getElem?_eq_none (by simpa using h)] at hi; cases hi
+  have hj' : j < 4 := by
+    rcases Nat.lt_or_ge j 4 with h | h
+    · exact h
+    · rw [List.getElem?_eq_none (by simpa using h)] at hj; cases hj
+  have e : ∀ (k : Nat) (x t : Rat), k < 4 → ([5, 7, 6, 1] : Vec)[k]? = some x → ([-5, -7, -6, -1] : Vec)[k]? = some t → t = -x := by
+    intro k x t hk hx ht
+    have : k = 0 ∨ k = 1 ∨ k = 2 ∨ k = 3 := by omega
+    rcases this with rfl | rfl | rfl | rfl <;> simp at hx ht <;> subst hx <;> subst ht <;> norm_num
+  rw [e i a ta hi' hi hti, e j b tb hj' hj htj]
+  linarith
+example : ArgsortOK [-6, -5, -7] [2, 0, 1] := by
+  refine ⟨by decide, ?_⟩
+  simp only [List.pairwise_cons, List.mem_cons, List.not_mem_nil, or_false, List.Pairwise.nil, and_true]
+  refine ⟨?_, ?_, ?_⟩
+  · intro j hj a b ha hb
+    rcases hj with rfl | rfl <;> simp at ha hb <;> subst ha <;> subst hb <;> norm_num
+  · intro j hj a b ha hb
+    subst hj; simp at ha hb; subst ha; subst hb; norm_num
+  · intro j hj; exact absurd hj (by simp)
+example : batchOf [2, 0, 1] (topkIdx [2, 0, 1] 2) = some [1, 2] ∧
+    isNSmallestB [-6, -5, -7] (topkIdx [2, 0, 1] 2) 2 = true ∧
+    isNSmallestB ([6, 5, 7].map (fun s => -s)) (topkIdx [2, 0, 1] 2) 2 = true := by decide +kernel
+example : batchOf [3, 3, 1, 2, 0, 2, 1] (topkIdx [2, 0, 1] 2) = some [1, 3] ∧
+    isNSmallestB ([1, 1, 7, 6, 5, 6, 7].map (fun s => -s)) (topkIdx [2, 0, 1] 2) 2 = false := by decide +kernel
+example : boltzmannFirst [-6, -5, -7] = some 2 ∧ chooseNext [-6, -5, -7] = some 2 := by decide +kernel
+example : isNSmallestB [1, 0, 1, 0] [1, 3] 2 = true ∧ isNSmallestB [1, 0, 1, 0] [0, 1] 2 = false ∧
+    isNSmallestB [1, 0] [1, 0, 1] 5 = false ∧ isNSmallestB [1, 0] [1, 0] 5 = true := by decide +kernel
+
+/-! `update_prior`: 11 observations, `update_prior_quantile = 1/10`: everything but the worst observation is kept (10 =
+`⌊10 · 9/10⌋ + 1`); the reversed comparison (`y >= quantile`) keeps the two WORST and is rejected by the checker. -/
+example : cboPriorQuantile (1/10) = 9/10 := by decide +kernel
+example : quantileLin [-3, -1, -2, -5, -4, 0, -9, -8, -7, -6, -10] (9/10) = some (-1) ∧
+    priorMask (cboPriorQuantile (1/10)) [-3, -1, -2, -5, -4, 0, -9, -8, -7, -6, -10]
+      = some [true, true, true, true, true, false, true, true, true, true, true] := by decide +kernel
+example : quantileLin [4, 1, 3, 2] (1/2) = some (5/2) ∧ quantileLin [4, 1, 3, 2] 1 = some 4 ∧ quantileLin [4, 1, 3, 2] 0 = some 1 ∧
+    quantileLin [] (1/2) = none ∧ quantileLin [1] (3/2) = none := by decide +kernel
+example : priorPoints (9/10) ["a", "b", "c", "d"] [-3, -1, -2, -5] = some ["a", "c", "d"] := by decide +kernel
+example : checkPriorSel [-3, -1, -2, -5, -4, 0, -9, -8, -7, -6, -10]
+      [true, true, true, true, true, false, true, true, true, true, true] = true ∧
+    checkPriorSel [-3, -1, -2, -5, -4, 0, -9, -8, -7, -6, -10]
+      [false, true, false, false, false, true, false, false, false, false, false] = false ∧
+    checkPriorSel [1, 2] [false, false] = false := by decide +kernel
+example : ([5, 7, 6, 1] : Vec).Nodup := by decide +kernel
+example : priorMask (cboPriorQuantile (1/2)) [-5, -7, -6, -1] = some [false, true, true, false] := by decide +kernel
 
 end DH.Direction
